@@ -377,7 +377,7 @@ func (e *orderEnv) judge(si int, s Step, created *provInst, last bool) {
 			} else {
 				add("C20:op.DefaultEndpoints-mutated-by:"+s.K, line)
 			}
-		case strings.HasSuffix(name, ".CheckRedirect==nil"):
+		case strings.Contains(name, ".CheckRedirect"): // nil-ness or identity of the redirect policy
 			switch s.K {
 			case "endsession":
 				add(fpEndSessionCR, line)
